@@ -26,7 +26,7 @@ from spec.base58_ref import check_encode
 XPRV_VER = bytes.fromhex("0488ade4")
 XPUB_VER = bytes.fromhex("0488b21e")
 H = bip32_ref.HARD
-KINDS = ["pkh", "wpkh", "sh-wpkh", "wsh-multi", "sh-multi", "sh-wsh-multi", "wsh-sortedmulti", "tr", "tr-tree", "tr-multi_a", "wsh-miniscript"]
+KINDS = ["pkh", "wpkh", "sh-wpkh", "wsh-multi", "sh-multi", "sh-wsh-multi", "wsh-sortedmulti", "tr", "tr-tree", "tr-multi_a", "wsh-miniscript", "wsh-miniscript-after"]
 ACCOUNT = [H + 84, H, H]
 
 
@@ -47,7 +47,10 @@ def descriptor_text(kind, seeds, branch):
             "wsh-multi": f"wsh(multi(2,{ke[0]},{ke[1]},{ke[2]}))", "sh-multi": f"sh(multi(2,{ke[0]},{ke[1]},{ke[2]}))",
             "sh-wsh-multi": f"sh(wsh(multi(2,{ke[0]},{ke[1]},{ke[2]})))", "wsh-sortedmulti": f"wsh(sortedmulti(2,{ke[0]},{ke[1]},{ke[2]}))",
             "tr": f"tr({ke[0]})", "tr-tree": f"tr({ke[0]},{{pk({ke[1]}),pk({ke[2]})}})", "tr-multi_a": f"tr({ke[0]},multi_a(2,{ke[1]},{ke[2]}))",
-            "wsh-miniscript": f"wsh(and_v(v:pk({ke[0]}),or_d(pk({ke[1]}),older(5))))"}[kind]
+            "wsh-miniscript": f"wsh(and_v(v:pk({ke[0]}),or_d(pk({ke[1]}),older(5))))",
+            # an after() branch beside a two-key branch: which one a satisfaction takes depends on the lock time and on the
+            # sequence (a final sequence disables nLockTime, BIP65)
+            "wsh-miniscript-after": f"wsh(or_i(and_v(v:pk({ke[0]}),after(400000)),and_v(v:pk({ke[1]}),pk({ke[2]}))))"}[kind]
 
 
 def pipeline(inputs, hash_type, lock_time, tamper, signers_used, version=0):
@@ -81,8 +84,8 @@ def pipeline(inputs, hash_type, lock_time, tamper, signers_used, version=0):
     used = set()
     for k, (kind, seeds, branch, index, sequence) in enumerate(inputs):
         order = list(range(len(seeds)))
-        if signers_used == "all":
-            pick = order
+        if signers_used == "all" or kind == "wsh-miniscript-after":
+            pick = order            # (the after() miniscript needs its two-key branch when the sequence is final)
         elif signers_used == "leaves" and kind in ("tr-tree", "tr-multi_a"):
             # the internal key does not sign: a script path is the only spend; one leaf of the tree
             # (finalize refuses to choose between two signed leaves), both keys of the multi_a leaf
@@ -153,6 +156,8 @@ def _gen_pipeline(rng):
     for _ in range(n):
         kind = rng.choice(KINDS)
         seq = rng.choice([0xFFFFFFFF, 0xFFFFFFFE, 5, 6]) if kind != "wsh-miniscript" else rng.choice([5, 6, 0xFFFFFFFE])
+        if kind == "wsh-miniscript-after":
+            seq = rng.choice([0xFFFFFFFF, 0xFFFFFFFF, 0xFFFFFFFE])
         inputs.append((kind, rng.sample(range(1, 120), 3), rng.choice([0, 1]), rng.choice([0, 1, 7, 2**31 - 1]), seq))
     return dict(inputs=inputs, hash_type=rng.choice([0, 1, 1, 2, 3, 0x81, 0x82, 0x83]), lock_time=rng.choice([0, 500000]),
                 tamper=rng.choice(["amount-out", "sequence", "lock-time", "spent-amount", "script-out"]), signers_used=rng.choice(["all", "quorum", "leaves"]),
@@ -160,7 +165,7 @@ def _gen_pipeline(rng):
 
 
 @contract("contracts.c_pipeline.pipeline", gen=_gen_pipeline, props="C10", n_quick=150, n_thorough=1500,
-          rule="1..3 inputs drawn from pkh, wpkh, sh(wpkh), wsh/sh/sh-wsh multi 2-of-3, sortedmulti, tr key path, tr with a two-leaf tree, tr with a multi_a leaf, wsh miniscript; account xpubs with origins from the independent BIP32 reference, branches 0/1, indexes 0, 1, 7, 2^31-1; every hash type; psbt v0 and (converted before signing) v2; all signers, a quorum, or the leaf keys alone (script path); one alteration of an output amount, an output script, a sequence, the lock time or the spent amount")
+          rule="1..3 inputs drawn from pkh, wpkh, sh(wpkh), wsh/sh/sh-wsh multi 2-of-3, sortedmulti, tr key path, tr with a two-leaf tree, tr with a multi_a leaf, two wsh miniscripts (older() / after() branches, final and non-final sequences); account xpubs with origins from the independent BIP32 reference, branches 0/1, indexes 0, 1, 7, 2^31-1; every hash type; psbt v0 and (converted before signing) v2; all signers, a quorum, or the leaf keys alone (script path); one alteration of an output amount, an output script, a sequence, the lock time or the spent amount")
 class PipelineBounded:
     """what the library builds, updates, signs, finalizes and extracts, its engine accepts under
     the standard flags; the same transaction with a field altered that the hash type commits to
@@ -216,3 +221,54 @@ class Bip322Bounded:
     def post_verifies_only_for_its_own(result):
         ok, ok_text, bad = result
         return ok is True and ok_text is True and bad is False
+
+
+# ---------------------------------------------------------------- BIP322 through a psbt (full / proof of funds)
+def bip322_psbt_run(seed_owner, seed_other, purpose, index, lie):
+    """the owner proves an address of theirs through the psbt flow (to_sign_psbt -> Updater ->
+    signer -> finalize); another key tree builds the same to_sign with a PSBT_IN_WITNESS_UTXO or
+    PSBT_IN_NON_WITNESS_UTXO that claims the challenge output is theirs, and signs it with their
+    own key.  Returns the verdicts for the honest and for the forged proof"""
+    from btclib import bip322
+    from btclib.bip32.bip32 import rootxprv_from_seed
+    from btclib.psbt_signer import export_account, request_signatures
+    msg = b"proof for " + bytes([seed_owner, seed_other])
+    owner = SoftwareSigner(rootxprv_from_seed(bytes([seed_owner]) * 32))
+    other = SoftwareSigner(rootxprv_from_seed(bytes([seed_other]) * 32))
+    owner_acct, _ = export_account(owner, f"m/{purpose}h/0h/0h")
+    other_acct, _ = export_account(other, "m/84h/0h/0h")
+    addr = owner_acct.address(index)
+    honest = bip322.to_sign_psbt(msg, addr)
+    honest = owner_acct.update_psbt_input(honest, 0, index)
+    honest = psbt_mod.finalize(request_signatures(owner, honest))
+    honest_ok = bip322.verify(msg, addr, bip322.Sig(honest).b64encode())
+    spend = bip322.to_spend(msg, ScriptPubKey.from_address(addr).script)
+    forged = Psbt.from_tx(bip322.to_sign(spend))
+    claimed = TxOut(0, other_acct.script_pub_key(0))
+    forged.inputs[0].witness_utxo = claimed
+    if lie == "witness-utxo-only":
+        forged.inputs[0].non_witness_utxo = None
+    forged.signed_message = msg
+    forged = other_acct.update_psbt_input(forged, 0, 0)
+    forged, _ = psbt_mod.sign(forged, other)
+    try:
+        forged_sig = bip322.Sig(psbt_mod.finalize(forged)).b64encode()
+    except BTClibValueError:
+        return honest_ok, False
+    return honest_ok, bip322.verify(msg, addr, forged_sig)
+
+
+def _gen_bip322_psbt(rng):
+    a, b = rng.sample(range(1, 200), 2)
+    return dict(seed_owner=a, seed_other=b, purpose=rng.choice([44, 49, 84, 86]), index=rng.choice([0, 1, 3, 9]), lie=rng.choice(["witness-utxo", "witness-utxo-only"]))
+
+
+@contract("contracts.c_pipeline.bip322_psbt_run", gen=_gen_bip322_psbt, props="C10", n_quick=40, n_thorough=600,
+          rule="two distinct key trees x p2pkh / p2sh-p2wpkh / p2wpkh / p2tr accounts (BIP44/49/84/86) x indexes 0, 1, 3, 9; the forger's psbt claims the challenge output pays to the forger's own p2wpkh script")
+class Bip322PsbtBounded:
+    """the owner's proof, made with the library's psbt roles, verifies for the address; a proof
+    signed by another key tree over a utxo that lies about the challenge script does not"""
+
+    def post_owner_only(result):
+        honest_ok, forged_ok = result
+        return honest_ok is True and forged_ok is False
